@@ -43,6 +43,7 @@ class Ctx:
         self.assumptions: list[str] = []
         self.extra: dict = {}
         self.exhaustive = None
+        self.errors: list[str] = []
 
     # -- bookkeeping
     def analysed(self, *fns: str) -> None:
@@ -120,6 +121,7 @@ def finish(ctx: Ctx, t0: float, explanation: str, rule_text: str, trusted: list[
             "known_findings": [f.as_dict() for f in listed],
             "new_violations": [f.as_dict() for f in new],
             "notes": ctx.notes[:60],
+            "analysis_errors": ctx.errors,
             "trusted_base": trusted,
             "source_digest": ctx.prog.digest(),
             **({"exhaustive": ctx.exhaustive} if ctx.exhaustive is not None else {}),
@@ -131,9 +133,11 @@ def finish(ctx: Ctx, t0: float, explanation: str, rule_text: str, trusted: list[
     }
     EVID.mkdir(exist_ok=True)
     (EVID / f"{ctx.prop}.json").write_text(json.dumps(ev, indent=1, default=str) + "\n")
+    for e in ctx.errors:
+        print(f"ANALYSIS-ERROR property={ctx.prop} {e}")
     print(f"[{ctx.prop}] tier={ctx.tier} rules={len(ctx.rules_run)} obligations={len(ctx.obligations)} "
-          f"{_count(ctx)} functions={len(ctx.functions)} known={len(listed)} new={len(new)} wall={ev['wall_s']}s")
-    return 1 if new else 0
+          f"{_count(ctx)} functions={len(ctx.functions)} known={len(listed)} new={len(new)} errors={len(ctx.errors)} wall={ev['wall_s']}s")
+    return 1 if new else 2 if ctx.errors else 0
 
 
 def _count(ctx: Ctx) -> dict:
